@@ -799,7 +799,12 @@ def _desugar_factors_with_weights(design: List[Factor],
                 # Uses `replacements`:
                 f.desugar_for_weights(replacements)
         # Returned `replacements` is also used for constraint desugaring
-        return (list(chain.from_iterable([replacements.get(f, [f]) for f in design])),
+        new_design = cast(List[Factor], [])
+        for f in chain.from_iterable([replacements.get(f, [f]) for f in design]):
+            # a desugared derived factor is its own replacement twice over
+            if f not in new_design:
+                new_design.append(f)
+        return (new_design,
                 [[replacements.get(f, [f, f])[1] for f in c] for c in crossings],
                 replacements)
 
